@@ -48,6 +48,9 @@ type hsParty struct {
 	AppErr error
 	Resumed bool
 	Panic   string
+	// ClosedByEndpoint: the conn was already closed when the endpoint's call
+	// returned (before the harness closes anything).
+	ClosedByEndpoint bool
 }
 
 type hsOpts struct {
@@ -163,6 +166,7 @@ func hsRun(o hsOpts) *hsResult {
 		p.Stream = stream.NewStream(ce)
 		p.Auth = security.NewAuthenticator(p.Cfg, p.Stream)
 		p.Neg, p.Err = p.Auth.ClientHandshake(cctx)
+		p.ClosedByEndpoint = ce.IsClosed()
 		if p.Err != nil {
 			ce.Close()
 			return
@@ -174,11 +178,13 @@ func hsRun(o hsOpts) *hsResult {
 		}
 		if o.App {
 			if err := p.Stream.SendMessage(cctx, []byte("ping-from-client")); err != nil {
+				p.ClosedByEndpoint = ce.IsClosed()
 				p.AppErr = err
 				ce.Close()
 				return
 			}
 			p.AppGot, p.AppErr = p.Stream.ReceiveCompleteMessage(cctx)
+			p.ClosedByEndpoint = ce.IsClosed()
 			if p.AppErr != nil {
 				ce.Close()
 			}
@@ -203,6 +209,7 @@ func hsRun(o hsOpts) *hsResult {
 			p.Auth.ServerConfigForCommand = o.ServerCfgForCmd
 		}
 		p.Neg, p.Err = p.Auth.ServerHandshake(sctx)
+		p.ClosedByEndpoint = se.IsClosed()
 		if p.Err != nil {
 			se.Close()
 			return
@@ -214,11 +221,13 @@ func hsRun(o hsOpts) *hsResult {
 		}
 		if o.App {
 			p.AppGot, p.AppErr = p.Stream.ReceiveCompleteMessage(sctx)
+			p.ClosedByEndpoint = se.IsClosed()
 			if p.AppErr != nil {
 				se.Close()
 				return
 			}
 			if err := p.Stream.SendMessage(sctx, []byte("pong-from-server")); err != nil {
+				p.ClosedByEndpoint = se.IsClosed()
 				p.AppErr = err
 				se.Close()
 			}
